@@ -27,7 +27,7 @@ CLAIMED = {
    design="4/C05", technique="TLA+ spec + trace validation of real executions"),
  "C06": dict(
    text="For every encoding (Graph, StableGraph, GraphMap, MatrixGraph, Csr, adj::List) x history (incl. vacant indices) of an abstract graph and every adaptor stack (identity via &, Frozen, Reversed, Reversed(Reversed), UndirectedAdaptor, NodeFiltered by parity, EdgeFiltered by weight, and the depth-2 stacks Reversed(NodeFiltered), NodeFiltered(Reversed), Reversed(EdgeFiltered), EdgeFiltered(Reversed), NodeFiltered(EdgeFiltered)) every visit-trait method the type implements is called (node_identifiers, node_references, edge_references, node_count, edge_count, node_bound/to_index/from_index, NodeCompactIndexable, neighbors, neighbors_directed, edges, edges_directed, adjacency_matrix + is_adjacent for all pairs, is_directed); TLC judges all of them against the one graph the adaptor must present (OracleC06.tla: g, reversed, symmetrised, node-induced, edge-restricted).",
-   note="Trusted: TLC, OracleC06.tla, harness id mapping. Filter predicates: parity of the abstract id, weight threshold. Rows of nodes excluded by a NodeFiltered are not judged. Recorded finding: UndirectedAdaptor (self-loops / undirected inner graphs doubled, incoming edges not re-oriented). Fixed: Reversed is_adjacent, StableGraph is_adjacent, MatrixGraph Incoming orientation, Csr undirected edge_references.",
+   note="Trusted: TLC, OracleC06.tla, harness id mapping. Filter predicates: parity of the abstract id, weight threshold. Per-node queries at a node that a NodeFiltered excludes must come back empty (the presented graph has no edge there). Recorded finding: UndirectedAdaptor (self-loops / undirected inner graphs doubled, incoming edges not re-oriented). Fixed: Reversed is_adjacent, StableGraph is_adjacent, MatrixGraph Incoming orientation, Csr undirected edge_references.",
    design="4/C06", technique="TLA+ oracle spec evaluated by TLC on recorded (input, adaptor, output) triples"),
  "C07": dict(
    text="Cross-product driver: every algorithm covered by the oracles of C09, C10, C11, C12, C15, C16 and C20 is run on every encoding (Graph, StableGraph, MatrixGraph, GraphMap, Csr, adj::List) x history (fresh, shuffled, garbage-then-remove leaving vacant indices / swap renumbering) of the same abstract graph, with its own seeds; every run is judged by that algorithm's TLA+ oracle (equal where unique, equally valid and optimal where not), and a panic, hang or out-of-bounds on one encoding is a rejection. The algorithm x encoding applicability matrix is written to the evidence.",
